@@ -286,6 +286,10 @@ func oracleC09(s string) string {
 				if lit.Uint64() != want {
 					return fmt.Sprintf("FAIL Uint64 of %q: %d, expected %d", t.Value, lit.Uint64(), want)
 				}
+				// Float64 of an integer literal is the nearest float64 of its value, however large
+				if f, _ := new(big.Rat).SetInt(v).Float64(); lit.Float64() != f {
+					return fmt.Sprintf("FAIL Float64 of %q: %v, expected %v", t.Value, lit.Float64(), f)
+				}
 			} else if r := ratOf(t.Value); r != nil {
 				// Float64 is strconv.ParseFloat: compared where the value is exactly representable
 				f, exact := r.Float64()
